@@ -205,7 +205,8 @@ async fn write_resp(
             return;
         }
         let _ = sock.flush().await;
-        tokio::task::yield_now().await;
+        // let the client see this fragment as a body frame of its own
+        tokio::time::sleep(std::time::Duration::from_millis(2)).await;
         rest = &rest[k..];
     }
     if !rest.is_empty() {
